@@ -25,6 +25,9 @@
  */
 #include "ares_private.h"
 #include "ares_event.h"
+#ifdef CARES_VERIF
+#  include "ares_verif.h"
+#endif
 
 #ifdef CARES_THREADS
 static void ares_event_destroy_cb(void *arg)
@@ -62,6 +65,11 @@ static void ares_event_thread_wake(const ares_event_thread_t *e)
     return; /* LCOV_EXCL_LINE: DefensiveCoding */
   }
 
+#ifdef CARES_VERIF
+  if (ares_verif_sync_cb != NULL) {
+    ares_verif_sync_cb(ARES_VERIF_SYNC_WAKE, e, NULL);
+  }
+#endif
   ares_event_signal(e->ev_signal);
 }
 
@@ -210,6 +218,14 @@ static void ares_event_thread_sockstate_cb(void *data, ares_socket_t socket_fd,
   ares_event_thread_t *e     = data;
   ares_event_flags_t   flags = ARES_EVENT_FLAG_NONE;
 
+#ifdef CARES_VERIF
+  /* Socket interest changes are made by channel code that must be running
+   * under the channel lock */
+  if (ares_verif_sync_cb != NULL) {
+    ares_verif_sync_cb(ARES_VERIF_SYNC_ACCESS, e->channel, NULL);
+  }
+#endif
+
   if (readable) {
     flags |= ARES_EVENT_FLAG_READ;
   }
@@ -227,6 +243,12 @@ static void ares_event_thread_sockstate_cb(void *data, ares_socket_t socket_fd,
 static void notifywrite_cb(void *data)
 {
   ares_event_thread_t *e = data;
+
+#ifdef CARES_VERIF
+  if (ares_verif_sync_cb != NULL) {
+    ares_verif_sync_cb(ARES_VERIF_SYNC_ACCESS, e->channel, NULL);
+  }
+#endif
 
   ares_thread_mutex_lock(e->mutex);
   e->process_pending_write = ARES_TRUE;
@@ -338,13 +360,31 @@ static void *ares_event_thread(void *arg)
      * triggered cross-thread */
     ares_thread_mutex_unlock(e->mutex);
 
+#ifdef CARES_VERIF
+    if (ares_verif_phase_cb != NULL) {
+      ares_verif_phase_cb(ARES_VERIF_PHASE_TIMEOUT, 0);
+    }
+#endif
+
     tvout = ares_timeout(e->channel, NULL, &tv);
     if (tvout != NULL) {
       timeout_ms =
         (unsigned long)((tvout->tv_sec * 1000) + (tvout->tv_usec / 1000) + 1);
     }
 
+#ifdef CARES_VERIF
+    if (ares_verif_phase_cb != NULL) {
+      ares_verif_phase_cb(ARES_VERIF_PHASE_WAIT, timeout_ms);
+    }
+#endif
+
     e->ev_sys->wait(e, timeout_ms);
+
+#ifdef CARES_VERIF
+    if (ares_verif_phase_cb != NULL) {
+      ares_verif_phase_cb(ARES_VERIF_PHASE_WOKEN, 0);
+    }
+#endif
 
     /* Process pending write operation */
     ares_thread_mutex_lock(e->mutex);
@@ -362,10 +402,21 @@ static void *ares_event_thread(void *arg)
      * that may not have been performed */
     if (e->isup) {
       ares_thread_mutex_unlock(e->mutex);
+#ifdef CARES_VERIF
+      if (ares_verif_phase_cb != NULL) {
+        ares_verif_phase_cb(ARES_VERIF_PHASE_PROCESS, 0);
+      }
+#endif
       ares_process_fds(e->channel, NULL, 0, ARES_PROCESS_FLAG_NONE);
       ares_thread_mutex_lock(e->mutex);
     }
   }
+
+#ifdef CARES_VERIF
+  if (ares_verif_phase_cb != NULL) {
+    ares_verif_phase_cb(ARES_VERIF_PHASE_EXIT, 0);
+  }
+#endif
 
   /* Lets cleanup while we're in the thread itself */
   ares_event_thread_cleanup(e);
